@@ -17,6 +17,7 @@ RTF_FEATURES = {
     "hex-cp1252-range": "\\'80 (euro sign in cp1252) inside a paragraph (twin: \\'e9)",
     "surrogate-pair": "non-BMP character as \\u-10179?\\u-8704? (twin: BMP character \\u8364?)",
     "pict-hex-wrapped": "picture hex data wrapped into 64-character lines (twin: one line)",
+    "lone-surrogate-escape": "a \\uN escape holding a trail surrogate without its lead (a cut-off emoji) (twin: the complete pair)",
     "unicode-with-hex-fallback": "\\u8364\\'80 (unicode escape followed by its \\'hh fallback) (twin: \\u8364?)",
 }
 
@@ -66,6 +67,13 @@ def build_rtf(seed: int, feature: str | None = None, twin: bool = False):
                     parts.append(w("b", 1, 1)[0] + "\\line " + w("b", 1, 1)[0])
                 else:
                     parts.append(w("b", 1, 1)[0] + " {\\*\\annotation " + exp.out(tk.new("m")) + "} " + w("b", 1, 1)[0])
+            if fn_rng.random() < 0.08:
+                # half of a surrogate pair on its own (a cut-off emoji): whatever it becomes, the text must stay well-formed Unicode
+                parts.append(w("b", 1, 1)[0] + " " + fn_rng.choice(["\\u-8704?", "\\u-10179?", "\\u-8704?\\u-10179?", "\\u56832?"]) + " " + w("b", 1, 1)[0])
+            if fn_rng.random() < 0.1:
+                # an embedded object whose data is given as raw bytes (\binN + N bytes) inside a skipped destination
+                raw = "OBJDATA" * fn_rng.randint(1, 4)
+                parts.append("{\\object\\objemb\\objw100\\objh100{\\*\\objclass Package}{\\*\\objdata\\bin%d %s}}" % (len(raw), raw))
             if fn_rng.random() < 0.12:
                 # a footnote: flat, or holding a hyperlink field / a bookmark (groups nested two and three levels deep); whether
                 # footnote text belongs to the full text is not claimed
@@ -167,6 +175,11 @@ def build_rtf(seed: int, feature: str | None = None, twin: bool = False):
                 a, b2 = w("b", 1, 1)[0], w("b", 1, 1)[0]
                 out.append("\\pard " + a + (" \\u8364? " if twin else " \\u8364\\'80 ") + b2 + "\\par\n")
                 exp.between.append((a, b2, "€"))
+            elif feature == "lone-surrogate-escape":
+                # half of a surrogate pair on its own, in body text and in a table cell (twin: the complete pair)
+                a, b2 = w("b", 1, 1)[0], w("b", 1, 1)[0]
+                esc = "\\u-10179?\\u-8704?" if twin else "\\u-8704?"
+                out.append("\\pard " + a + " " + esc + " " + b2 + "\\par\n")
             elif feature == "pict-hex-wrapped":
                 out.append("\\pard " + picture(wrapped=not twin) + "\\par\n")
         if p != n_pages - 1:
